@@ -379,12 +379,34 @@ class Interp:
         if module is not None and not isinstance(root, ast.Module):
             root = module  # a detached copy (sa/flatten.py): the module it came from
         self.compiled: Dict[str, str] = {}
+        # module- / class-level string constants (`_WORDS_PATTERN = r"..."`) used as regex patterns
+        self.str_consts: Dict[str, str] = {}
+        top = list(getattr(root, "body", [])) if isinstance(root, ast.Module) else []
+        for st in list(top):
+            if isinstance(st, ast.ClassDef):
+                top += list(st.body)
+        for st in top:
+            if isinstance(st, (ast.Assign, ast.AnnAssign)) and st.value is not None and _const(st.value) is not None:
+                tg = st.targets[0] if isinstance(st, ast.Assign) else st.target
+                if isinstance(tg, ast.Name):
+                    self.str_consts[tg.id] = _const(st.value) or ""
         for st in getattr(root, "body", []) if isinstance(root, ast.Module) else []:
             if isinstance(st, (ast.Assign, ast.AnnAssign)) and st.value is not None and isinstance(st.value, ast.Call) and dotted(st.value.func) == "re.compile" \
                     and len(st.value.args) == 1 and _const(st.value.args[0]) is not None:
                 tg = st.targets[0] if isinstance(st, ast.Assign) else st.target
                 if isinstance(tg, ast.Name):
                     self.compiled[tg.id] = _const(st.value.args[0]) or ""
+
+    def _pat(self, e: ast.AST) -> Optional[str]:
+        """a regex pattern argument: a string literal, or a module- / class-level string constant (`NAME`, `Cls.NAME`, `self.NAME`)"""
+        c = _const(e)
+        if c is not None:
+            return c
+        if isinstance(e, ast.Name):
+            return self.str_consts.get(e.id)
+        if isinstance(e, ast.Attribute) and isinstance(e.value, ast.Name):
+            return self.str_consts.get(e.attr)
+        return None
 
     def run(self) -> None:
         env: Dict[str, AVal] = {self.param: AStr.any()}
@@ -622,19 +644,19 @@ class Interp:
         if isinstance(e, ast.Call):
             name = dotted(e.func)
             if name in ("re.sub",) and len(e.args) >= 3:
-                pat, repl = _const(e.args[0]), _const(e.args[1])
+                pat, repl = self._pat(e.args[0]), _const(e.args[1])
                 s = self.ev(e.args[2], env)
                 if pat is None or repl is None or not isinstance(s, AStr):
                     raise Unsupported(f"re.sub with non-constant pattern/replacement: {norm(e)[:60]}")
                 return t_sub(pat, repl, s)
             if name == "re.findall" and len(e.args) == 2:
-                pat = _const(e.args[0])
+                pat = self._pat(e.args[0])
                 s = self.ev(e.args[1], env)
                 if pat is None or not isinstance(s, AStr):
                     raise Unsupported("re.findall with non-constant pattern")
                 return t_findall(pat, s)
             if name == "re.split" and len(e.args) == 2:
-                pat = _const(e.args[0])
+                pat = self._pat(e.args[0])
                 s = self.ev(e.args[1], env)
                 if pat is None or not isinstance(s, AStr):
                     raise Unsupported("re.split with non-constant pattern")
